@@ -46,6 +46,17 @@ def setup(P):
             super()._validate(val)
     _st['Peek'] = Peek
 
+    class Computed(param.String):
+        """A Parameter type that computes what it shows from what it stores, on every read - as the library's own file-system
+        path types do."""
+        @staticmethod
+        def shown(v):
+            return v if v is None else '/resolved/' + v
+
+        def __get__(self, obj, objtype):
+            return self.shown(super().__get__(obj, objtype))
+    _st['Computed'] = Computed
+
 
 def tok():
     _tok[0] += 1
@@ -69,7 +80,9 @@ def run_case(idx, rng, P, rep):
     NAMES = ['x', 'y', 'z']
 
     def new_param(kind=None, default=None):
-        kind = kind or rng.choice(['Number', 'String', 'Parameter', 'Integer', 'Peek', 'USel'])
+        kind = kind or rng.choice(['Number', 'String', 'Parameter', 'Integer', 'Peek', 'USel', 'Computed'])
+        if kind == 'Computed':
+            return _st['Computed'](default=f'c{tok()}' if default is None else default), kind
         if kind == 'USel':
             # a Selector that takes (and remembers) whatever it is given, with one Parameter object shared by all instances
             d_ = tok() if default is None else default
@@ -120,6 +133,10 @@ def run_case(idx, rng, P, rep):
     def viol(key, msg):
         rep.violation(f'C13/{key}', msg, case=dict(desc, ops=kinds), trace=trace[-30:])
 
+    def shows(pobj, v):
+        # what attribute access shows for a stored value (a type may compute it on every read)
+        return pobj.shown(v) if isinstance(pobj, _st['Computed']) else v
+
     def value_for(name, K):
         g = governing(K, Parameter).get(name)
         if isinstance(g, param.String):
@@ -161,7 +178,7 @@ def run_case(idx, rng, P, rep):
                     # a Composite has no stored default: the attribute is the list of its constituents on that very class
                     if attr != [getattr(K, 'x'), getattr(K, 'y')]:
                         viol('class/composite-differs', f'{step}: {K.__name__}.xy={attr!r} but [x, y]={[getattr(K, "x"), getattr(K, "y")]!r}')
-                elif got.default != attr:
+                elif (got.shown(got.default) if isinstance(got, _st['Computed']) else got.default) != attr:
                     viol('class/default-differs', f'{step}: {K.__name__}.param[{n!r}].default={got.default!r} but {K.__name__}.{n}={attr!r}')
                 if n != 'name' and vals.get(n, '<missing>') != attr:
                     viol('class/values-differ', f'{step}: {K.__name__}.param.values()[{n!r}]={vals.get(n, "<missing>")!r} but getattr={attr!r}')
@@ -208,7 +225,7 @@ def run_case(idx, rng, P, rep):
                 if n in touched and n != 'xy':
                     # reading inst.param[n] is part of the history (it creates the per-instance copy)
                     po = o.param[n]
-                    if po.default != getattr(K, n):
+                    if (po.shown(po.default) if isinstance(po, _st['Computed']) else po.default) != getattr(K, n):
                         viol('instance/param-copy-default-stale', f'{step}: inst{ii}.param[{n!r}].default={po.default!r} but '
                              f'{K.__name__}.{n}={getattr(K, n)!r}')
 
@@ -253,7 +270,7 @@ def run_case(idx, rng, P, rep):
                         attr_ = getattr(C_, n)
                         if C_.param[n] is not gov_:
                             inside.append(f'{C_.__name__}.param[{n!r}] is not the governing Parameter object')
-                        elif C_.param[n].default != attr_ and n != 'xy':
+                        elif shows(C_.param[n], C_.param[n].default) != attr_ and n != 'xy':
                             inside.append(f'{C_.__name__}.param[{n!r}].default={C_.param[n].default!r} but {C_.__name__}.{n}={attr_!r}')
                         elif n != 'xy' and C_.param.values().get(n, '<missing>') != attr_:
                             inside.append(f'{C_.__name__}.param.values()[{n!r}]={C_.param.values().get(n)!r} but getattr={attr_!r}')
@@ -266,7 +283,7 @@ def run_case(idx, rng, P, rep):
                     K.param.unwatch(w_in)
             if inside:
                 viol('class/namespace-disagrees-while-watcher-runs', f'{K.__name__}.{n} = {v!r}: while a class-level watcher ran, {inside[0]}')
-            if getattr(K, n) != v:
+            if getattr(K, n) != shows(K.param[n], v):
                 viol('class/set-lost', f'{K.__name__}.{n} = {v!r} but getattr gives {getattr(K, n)!r}')
         elif c < 0.53:
             # a class-level assignment that fails: the value is rejected by validation, or a class-level watcher raises
@@ -313,7 +330,7 @@ def run_case(idx, rng, P, rep):
                         K.param.unwatch(w)
                     except Exception:   # noqa: BLE001
                         pass
-                if getattr(K, n) != v:
+                if getattr(K, n) != shows(K.param[n], v):
                     viol('class/set-lost', f'{K.__name__}.{n} = {v!r} (a watcher raised) but getattr gives {getattr(K, n)!r}')
         elif c < 0.6:
             n = rng.choice(NAMES + ['w'])
